@@ -321,7 +321,7 @@ fn run_case(seed: u64, idx: u64, _tier: Tier, out: &mut CaseOut) {
                 1 => (*rng.pick(&["max-height: 0; overflow-y: hidden", "overflow-y: hidden; max-height: 0", "max-height:0pt;overflow:hidden", "height:0in;overflow-y:hidden"]), true),
                 2 if competing => ("display: block", false),
                 3 | 4 => (*rng.pick(&NOT_HIDING), false),
-                _ => ("display:none", true),
+                _ => (*rng.pick(&["display:none", "display:none", "display: none ", "display: none ;", "display:none; *zoom:1", " display:none;; ", "display:none;color", "DISPLAY:NONE"]), true),
             };
             if NOT_HIDING.contains(&style) {
                 e.set_attr("style", style);
